@@ -129,7 +129,15 @@ pub fn generate(run_seed: u64, corpus: &Corpus, sw: &Swarm, i: u64, exhaustive: 
         let (kind, cl) = W5_ENVS[(i % n_env) as usize];
         let client = client_for(cl);
         // last block: ordered pairs of edge-value escapes in a double-quoted scalar, iterate + two loaders
-        // very last block: every split of a core-schema tag between %TAG prefix and suffix
+        // very last block: what follows a dedent
+        let ddn = gen::dedent_count() * 2;
+        if i >= exhaustive - ddn {
+            let j = i - (exhaustive - ddn);
+            let (input, client) = if j % 2 == 0 { (InputKind::Str, Client::Iterate) } else { (InputKind::Buffered, Client::Loader(((j / 2) % 4) as u8, 0)) };
+            return Case { prop: "C01".into(), gen: "D-dedent".into(), text: gen::nth_dedent(j / 2), input, client, ..Case::default() };
+        }
+        let exhaustive = exhaustive - ddn;
+        // before it: every split of a core-schema tag between %TAG prefix and suffix
         let tsn = gen::tag_split_count() * 5;
         if i >= exhaustive - tsn {
             let j = i - (exhaustive - tsn);
